@@ -2,7 +2,8 @@
  *
  * Scenario = load keys and CAs from PEM, create sessions (client with expected name), handshake
  * (full / resumed by session id, TLS 1.2 ticket, TLS 1.3 ticket or PSK / client-auth, RSA and ECDSA
- * identities, per version), data both ways, closure, delete everything.
+ * identities, per version; stale ticket replaced after a server ticket-key rotation), data both ways,
+ * closure, delete everything (sessions, session id, keys).
  * A counting pass numbers every allocation made inside library API calls (link-time
  * --wrap=malloc,calloc,realloc; the harness's own allocations are exempt).  Then one fork()ed run
  * per injected failure k.  Oracle per run: no sanitizer report / crash / hang (driver), nothing
@@ -15,7 +16,7 @@
 
 extern int mx_fp_armed; extern long mx_fp_count, mx_fp_failat[4], mx_fp_failed; extern uint64_t *mx_fp_sites; extern long mx_fp_sites_cap;
 
-typedef struct { const char *name; int ver; uint16_t suite; int clientAuth; int rounds; int ticket; int bad; } scn_t;
+typedef struct { const char *name; int ver; uint16_t suite; int clientAuth; int rounds; int ticket; int bad; int rotate; } scn_t;
 enum { BAD_NONE = 0, BAD_UNTRUSTED_CA, BAD_WRONG_KEY, BAD_WRONG_NAME };
 static const char *badname[] = { "good", "untrusted-ca", "wrong-key", "wrong-name" };
 static const scn_t scns[] = {
@@ -45,6 +46,12 @@ static const scn_t scns[] = {
     { "tls13-chacha-clientauth-untrusted", MX_TLS13, 0x1303, 1, 1, 0, BAD_UNTRUSTED_CA },
     { "tls12-ecdsa-wrong-key", MX_TLS12, 0xc02b, 0, 1, 0, BAD_WRONG_KEY },
     { "dtls12-wrong-name", MX_DTLS12, 0xc02f, 0, 1, 0, BAD_WRONG_NAME },
+    /* stale RFC 5077 ticket: round 0 is a fault-free priming connection that leaves ticket T1 in the client's session id; the
+     * server's ticket key is then rotated (old key deleted, new one loaded); the fault-injected round 1 presents T1, the server
+     * cannot unlock it, does a full handshake and issues a different ticket that REPLACES the stored one; then everything,
+     * including the session id, is deleted */
+    { "tls12-ticket-rotated-key", MX_TLS12, 0xc02f, 0, 2, 1, BAD_NONE, 1 },
+    { "dtls12-ticket-rotated-key", MX_DTLS12, 0x009c, 0, 2, 1, BAD_NONE, 1 },
 };
 #define NSCN ((int) (sizeof scns / sizeof scns[0]))
 
@@ -84,6 +91,11 @@ static void scenario(const scn_t *s, outcome_t *o)
     LIB(rc = matrixSslNewSessionId(&sid, NULL)); if (rc < 0) { sid = NULL; goto out; }
     o->stage = 2;
     for (int round = 0; round < s->rounds; round++) {
+        int armed = mx_fp_armed;
+        if (s->rotate && round == 0) mx_fp_armed = 0;    /* priming connection: not counted, never faulted */
+        if (s->rotate && round == 1) { unsigned char tn0[16] = "ticket-key-name", tn[16] = "ticket-key-two", tk[32], th[32]; memset(tk, 3, 32); memset(th, 5, 32);
+            mx_actor = 2; LIB(rc = matrixSslDeleteSessionTicketKey(sk, tn0)); if (rc < 0) break;
+            LIB(rc = matrixSslLoadSessionTicketKeys(sk, tn, tk, 32, th, 32)); if (rc < 0) break; }
         mx_cfg cfg = { .ver = s->ver, .suite = s->suite, .clientAuth = s->clientAuth, .useTicket = s->ticket, .skeys = sk, .ckeys = ck, .noCallback = 1,
                        .expectedName = s->bad == BAD_WRONG_NAME ? "not-the-name.example" : "localhost" };
         if (s->clientAuth) cfg.strictCb = 1;
@@ -106,6 +118,7 @@ static void scenario(const scn_t *s, outcome_t *o)
             }
         }
         mx_conn_close(&k);
+        mx_fp_armed = armed;
         if (orc != 0) break;
     }
     o->stage = 3;
